@@ -6,7 +6,7 @@
 name="$1"; shift
 d=/tmp/snap/$name
 rm -rf "$d"; mkdir -p "$d/verif" 
-cp -a /repo "$d/repo"
+mkdir -p "$d/repo" && git -C /repo archive HEAD | tar xf - -C "$d/repo"
 cd /verif && tar cf - --exclude=./seeded --exclude=./.git --exclude=./replays --exclude=./evidence . | (cd "$d/verif" && tar xf -)
 mkdir -p "$d/verif/replays" "$d/verif/evidence"
 cp /verif/replays/kept-* "$d/verif/replays/" 2>/dev/null
